@@ -75,6 +75,7 @@ def ref_vertices_connected(n: int, edges: List[Tuple[int, int]], acyclic: bool, 
 def check_encoding(repo: Repo, rep: Report) -> None:
     rep.rule("ENC-S", "the posted constraint set equals the reference schema of the rank/root encoding on every small graph (deviations are triaged by projection)")
     rep.saw(GRAPH, "_active_vertices_connected")
+    xitems: List[Any] = []
     for acyclic in (False, True):
         deviating = []
         n_ok = 0
@@ -86,6 +87,9 @@ def check_encoding(repo: Repo, rep: Report) -> None:
                 inst.w.call("active_vertices_connected", inst.s, act, g, acyclic=acyclic)
                 refs, cons = ref_vertices_connected(n, edges, acyclic)
                 same, diff = compare(inst, refs, cons)
+                if n <= 4:
+                    xitems.append((f"graph '{gname}' {edges}, acyclic={acyclic}", inst, [a for a in inst.arrays if a["user"]][0]["ids"],
+                                   (lambda n=n, edges=edges, acyclic=acyclic: connected_sets(n, edges, acyclic))))
                 if same:
                     n_ok += 1
                 else:
@@ -103,6 +107,10 @@ def check_encoding(repo: Repo, rep: Report) -> None:
         triage(rep, label, "_active_vertices_connected", deviating,
                lambda n, edges: connected_sets(n, edges, acyclic), lambda inst: [a for a in inst.arrays if a["user"]][0]["ids"],
                "active set", "connected" + (" tree" if acyclic else ""))
+        xitems = [x for x in xitems if f"acyclic={acyclic}" not in x[0]]
+    from .encodings import cross_check
+
+    cross_check(rep, "active_vertices_connected", "_active_vertices_connected", xitems, what="active set")
 
 
 def triage(rep: Report, label: str, func: str, deviating: List[Any], spec, user_ids, what: str, meaning: str) -> None:
